@@ -47,8 +47,9 @@ PER_COMBO = {"quick": 12, "thorough": 150}  # cases per (measure, window, subpix
 
 
 # ----------------------------------------------------------------------------------------------- real code driver
-def make_dataset(im, msk=None, disp=None, bands=None):
-    """im: (ny,nx) or (nb,ny,nx); msk: (ny,nx) int or None; disp: None | (min,max) ints | (gmin, gmax) float grids"""
+def make_dataset(im, msk=None, disp=None, bands=None, codes=None):
+    """im: (ny,nx) or (nb,ny,nx); msk: (ny,nx) int or None; disp: None | (min,max) ints | (gmin, gmax) float grids;
+    codes: this image's own (valid, nodata, invalid) mask codes (each image carries its convention in its attributes)"""
     from pandora.img_tools import add_disparity
 
     im = np.asarray(im, dtype=np.float32)
@@ -61,6 +62,10 @@ def make_dataset(im, msk=None, disp=None, bands=None):
         ds = xr.Dataset({"im": (["row", "col"], im.copy())}, coords={"row": np.arange(im.shape[0]), "col": np.arange(im.shape[1])})
     ds.attrs = {"valid_pixels": VALID, "no_data_mask": NODATA, "no_data_img": -9999, "crs": None,
                 "transform": Affine(1.0, 0.0, 0.0, 0.0, 1.0, 0.0)}
+    if codes is not None:
+        ds.attrs["valid_pixels"], ds.attrs["no_data_mask"] = int(codes[0]), int(codes[1])
+        if msk is not None:
+            msk = np.asarray(codes, dtype=int)[np.asarray(msk, dtype=int)]  # VALID/NODATA/INVALID -> this image's codes
     if msk is not None:
         ds["msk"] = xr.DataArray(np.asarray(msk).astype(np.int16), dims=["row", "col"])
     if disp is not None:
@@ -208,7 +213,7 @@ def build(case):
     bands_left = case.get("bands_left") or bands  # by-name cases: each image has its own band list
     bands_right = case.get("bands_right") or bands
     left = make_dataset(L, mL, disp, bands_left)
-    right = make_dataset(R, mR, None, bands_right)
+    right = make_dataset(R, mR, None, bands_right, codes=case.get("right_codes"))
     mc_cfg = {"matching_cost_method": case["method"], "window_size": int(case["window"]), "subpix": int(case["subpix"])}
     if band is not None:
         mc_cfg["band"] = band
@@ -375,6 +380,10 @@ def gen_case(rng, method, w, subpix, bandmode, interval, rnd=99, fkind=0):
         case["msk_left"] = _mask(rng, (ny, nx), p).tolist()
     if mm in (2, 3):
         case["msk_right"] = _mask(rng, (ny, nx), p).tolist()
+        if rng.random() < 0.5:
+            # the right image has its OWN mask convention (each dataset carries valid_pixels / no_data_mask in its attributes);
+            # the first one reuses the left image's codes for other meanings
+            case["right_codes"] = [[1, 0, 2], [5, 7, 9], [2, 1, 0]][int(rng.integers(0, 3))]
     if interval == "frac":
         case["gmin"], case["gmax"] = fractional_grids(rng, ny, nx, fkind)
     elif interval is not None:
